@@ -184,3 +184,48 @@ package referenceclient
 //@   requires printer != nil
 //@   modifies prN, lastUnmarshalFmt, status.Status.Code, status.Status.Message, status.Status.Details, pbDecodedFrom, lastDecoded
 //@   ensures prN[printer] >= old(prN[printer])
+
+// ---- Connect error JSON: what is accepted per key (the callbacks given to examineJSON) ----
+// "code" must be a string naming one of the codes 1..16, "message" a string, "details" an
+// array; any other key is flagged. Exactly: one line of feedback or none.
+//@ spec isCodeName(s string) bool = exists c int :: 1 <= c && c <= 16 && s == codeName(c)
+//@ spec connectErrorKeyOK(key string, val any) bool =
+//@     key == "code" ? (typeis(val, string) && isCodeName(unbox(val, string))) :
+//@     (key == "message" ? typeis(val, string) : (key == "details" ? typeis(val, []any) : false))
+//@ func examineConnectError$1
+//@   requires printer != nil && addrof(hasCode) != addrof(hasDetails)
+//@   modifies prN, *bool
+//@   ensures @iff (prN[printer] == old(prN[printer])) == connectErrorKeyOK(key, val)
+//@   ensures prN[printer] == old(prN[printer]) || prN[printer] == old(prN[printer]) + 1
+//@   ensures @seen hasCode == (old(hasCode) || key == "code") && hasDetails == (old(hasDetails) || key == "details")
+//@   loop 0: invariant 1 <= code && code <= 17 && !found && (forall c int :: 1 <= c && c < code ==> strVal != codeName(c)) && prN[printer] == old(prN[printer]) && hasCode && hasDetails == old(hasDetails)
+
+// An error detail: "type" a string that is a valid full name, "value" a string in unpadded
+// base64, "debug" anything; any other key is flagged. (The callback runs only after the
+// decoded detail is known to be non-nil: precondition.)
+//@ spec detailKeyOK(key string, val any) bool =
+//@     key == "type" ? (typeis(val, string) && fullNameValid(unbox(val, string))) :
+//@     (key == "value" ? (typeis(val, string) && b64DecOK(base64.RawStdEncoding, unbox(val, string))) : key == "debug")
+//@ func examineConnectErrorDetail$1
+//@   requires printer != nil && detail != nil
+//@   modifies prN, *bool, *[]byte, connectErrorDetail.Value
+//@   ensures @iff (prN[printer] == old(prN[printer])) == detailKeyOK(key, val)
+//@   ensures prN[printer] == old(prN[printer]) || prN[printer] == old(prN[printer]) + 1
+
+// A Connect end-of-stream message: "error" must be an object; "metadata" an object whose
+// keys are valid field names and whose values are arrays of strings that are valid field
+// values; any other key is flagged. No feedback exactly then.
+//@ spec mdValuesOK(vals []any, n int) bool = forall i int :: 0 <= i && i < n ==> typeis(vals[i], string) && allValue(unbox(vals[i], string))
+//@ spec mdEntryOK(name string, v any) bool = allToken(name) && typeis(v, []any) && mdValuesOK(unbox(v, []any), len(unbox(v, []any)))
+//@ spec endStreamKeyOK(key string, val any) bool =
+//@     key == "error" ? typeis(val, map[string]any) :
+//@     (key == "metadata" ? (typeis(val, map[string]any) && (forall name string :: has(unbox(val, map[string]any), name) ==> mdEntryOK(name, unbox(val, map[string]any)[name]))) : false)
+//@ func examineConnectEndStream$1
+//@   requires printer != nil
+//@   modifies prN, *bool
+//@   ensures prN[printer] >= old(prN[printer])
+//@   ensures @iff (prN[printer] == old(prN[printer])) == endStreamKeyOK(key, val)
+//@   loop 0: invariant prN[printer] >= old(prN[printer]) && key == "metadata"
+//@           invariant (prN[printer] == old(prN[printer])) == (typeis(val, map[string]any) && (forall name string :: has(mapVal, name) && rangeidx(name) < rangepos ==> mdEntryOK(name, mapVal[name])))
+//@   loop 1: invariant prN[printer] >= old(prN[printer]) && key == "metadata" && has(mapVal, name) && typeis(values, []any) && valSlice == unbox(values, []any) && values == mapVal[name]
+//@           invariant (prN[printer] == old(prN[printer])) == (typeis(val, map[string]any) && (forall nm string :: has(mapVal, nm) && rangeidx(nm) < rangeidx(name) ==> mdEntryOK(nm, mapVal[nm])) && allToken(name) && mdValuesOK(valSlice, rangeindex + 1))
